@@ -27,19 +27,7 @@ NSLOTS = {("pubsub", 1): 6, ("pubsub", 2): 8, ("event", 1): 4, ("event", 2): 6, 
 # fix: commit in /repo and an entry in known_findings.json (matched by the same key).  Until then
 # the check prints CANDIDATE-DEFECT for them (with a replay file) instead of VIOLATION.  Remove a
 # key here as soon as it is adjudicated; anything not listed (and not a known finding) is a VIOLATION.
-PENDING_CANDIDATES = {
-    "reqres:delivered-response-lost-when-sibling-polls-expired-connection":
-        "one client, two pending responses to one server (response connection with 2 channels): pending_a (channel 0) has a response "
-        "that the server delivered before it went away and that was not received yet, nothing of this connection is borrowed; once "
-        "the server side is gone, pending_b.receive() (channel 1, no data) runs Receiver::receive_from_to_be_removed_connections, "
-        "which decides with `let (_has_data, has_borrows) = ...; if !has_borrows { remove }` -- the data of the OTHER channel is "
-        "ignored -- and releases the expired connection; pending_a.receive() then returns None: the delivered response is lost "
-        "(prepare_connection_removal had kept the connection precisely because it has data). All four service variants. Minimal "
-        "order (family reqres2, slots node svc client server pending_b pending_a response_b active_a active_b): drop response_b, "
-        "server, active_b, active_a = 6,3,8,7; the probes then poll pending_b before pending_a. Coq: "
-        "c17_expired_connection_keeps_data_refuted (witness channels [(data,0);(no data,0)], poll on channel 1). Plausible repair: "
-        "`if !has_borrows && !has_data`",
-}   # earlier candidates are adjudicated: see known_findings.json
+PENDING_CANDIDATES = {}   # all candidates adjudicated: see known_findings.json
 
 
 def classify(pattern, detail):
